@@ -2,6 +2,7 @@ package main
 
 import (
 	"fmt"
+	"slices"
 	"strings"
 	"sync"
 
@@ -128,6 +129,18 @@ var smPrepareFailure *vlib.Failure
 func smPrepare() {
 	smSuite = suiteFor(smA, smB, smC, smD, smE)
 	smSuiteFull = suiteFor(smA, smB, smC, smD, smE, smF, smG, smH, smI)
+	// more ACRH field lines than any configured list is long
+	for _, o := range []string{"https://a.example", "http://b.example:81"} {
+		for _, n := range []int{17, 18, 19, 20, 22, 23, 24, 40} {
+			for _, unit := range []string{"x-zz", "", "x-a"} {
+				lines := make([]string, n)
+				for i := range lines {
+					lines[i] = unit
+				}
+				smSuiteFull = append(smSuiteFull, vlib.Req{Method: "OPTIONS", Hdr: map[string][]string{"Origin": {o}, "Access-Control-Request-Method": {"GET"}, "Access-Control-Request-Headers": lines}})
+			}
+		}
+	}
 	// header keys with zero values (no field line at all) and with one empty value, on preflights that otherwise pass
 	for _, o := range []string{"https://a.example", "http://b.example:81", "https://d.example"} {
 		for _, m := range []string{"GET", "PUT", "DELETE"} {
@@ -383,6 +396,31 @@ func c09DiagP(name string, r vlib.Req, preset map[string][]string) *vlib.Failure
 			for _, hk := range []string{"Access-Control-Allow-Origin", "Access-Control-Allow-Credentials", "Access-Control-Allow-Private-Network"} {
 				if want, ok := cp.Hdr[hk]; ok && fmt.Sprint(b.Hdr[hk]) != fmt.Sprint(want) {
 					return vlib.Failf("configuration %s, debug on: the failing preflight %s is answered without %s=%q although the steps that establish it passed (counterpart without %s succeeds with it)\n on: %s", name, r, hk, want, drop, onSig)
+				}
+			}
+			// the failure is at the header step if the counterpart that keeps the method (and drops only ACRH) succeeds:
+			// the diagnostics then are the full list of configured request-header names
+			if l := smCfgs[name]; drop == "method+headers" && len(r.Hdr["Access-Control-Request-Headers"]) > 0 && len(l.RequestHeaders) > 0 && !slices.Contains(l.RequestHeaders, "*") {
+				hdr2 := map[string][]string{}
+				for k, v := range r.Hdr {
+					if k != "Access-Control-Request-Headers" {
+						hdr2[k] = v
+					}
+				}
+				// (judged with debug off: only there does a 2xx status mean success)
+				if cp2 := vlib.Serve(mOff.Wrap(innerOff), &innerOff.Calls, vlib.Req{Method: "OPTIONS", Hdr: hdr2}, preset); cp2.Status/100 == 2 && len(cp2.Hdr["Access-Control-Allow-Origin"]) > 0 {
+					listed, _, _ := ref.ExtractList(b.Hdr, "Access-Control-Allow-Headers")
+					for _, n := range l.RequestHeaders {
+						found := false
+						for _, x := range listed {
+							if strings.EqualFold(x, n) {
+								found = true
+							}
+						}
+						if !found {
+							return vlib.Failf("configuration %s, debug on: the preflight %s fails at the header step, yet the answer does not list the configured request-header name %q (Access-Control-Allow-Headers=%q)", name, r, n, b.Hdr["Access-Control-Allow-Headers"])
+						}
+					}
 				}
 			}
 			break
